@@ -174,7 +174,7 @@ Section Visits.
          Pr pend (out_of_flow_pass P cas cc rc bb cols rows (map oof_view st) 0 order content k)) ->
       grid_no_panic s st i = true -> gi_mode i = PerformLayout -> Pr (seq 0 (length st)) (grid_alg s st i).
     Proof.
-      intros Hret Hrun Hin Hoof Hnp Em. unfold grid_alg, grid_core. unfold grid_no_panic in Hnp. cbv zeta in *. rewrite Em.
+      intros Hret Hrun Hin Hoof Hnp Em. unfold grid_alg, grid_core, grid_main. unfold grid_no_panic in Hnp. cbv zeta in *. rewrite Em.
       destruct (explicit_counts s (grid_pre s i)) as [ec er].
       destruct (place s ec er (estimate_styles st) (in_flow_styles st)) as [[m placed]|e] eqn:Ep; [|discriminate].
       destruct (PL.mapM _ placed) as [items0|e] eqn:Em0; [|discriminate].
@@ -247,7 +247,7 @@ Section Visits.
       not_baseline (gs_align_items s) -> Forall (fun sc => not_baseline (gs_align_self sc)) st ->
       gi_mode i = ComputeSize -> SO (grid_alg s st i).
     Proof.
-      intros Hs Hst Em. unfold grid_alg, grid_core. cbv zeta. rewrite Em.
+      intros Hs Hst Em. unfold grid_alg, grid_core, grid_main. cbv zeta. rewrite Em.
       assert (Hmain : SO
         (let '(ec, er) := explicit_counts s (grid_pre s i) in
          match place s ec er (estimate_styles st) (in_flow_styles st) with
@@ -321,8 +321,9 @@ Definition gns_container : GStyle XQ :=
   mkGStyle (gs_core d) (gs_inset d) [TSingle (SAuto, SAuto); TSingle (SAuto, SAuto)] [] [] [] PB.FRow (gs_gap d)
            (Some AE.AI_Baseline) None None None auto_ln auto_ln None None false.
 
-Definition gns_input : GIn XQ :=
-  mkGIn ComputeSize InherentSize AxBoth size_NONE size_NONE (mkSize MaxContent MaxContent) (mkLine false false).
+Definition gns_input_mode (mode : RunMode) : GIn XQ :=
+  mkGIn mode InherentSize AxBoth size_NONE size_NONE (mkSize MaxContent MaxContent) (mkLine false false).
+Definition gns_input : GIn XQ := gns_input_mode ComputeSize.
 
 Definition gns_answer : LayoutOutput XQ :=
   mkOutput (mkSize (xq 10) (xq 20)) size_ZERO point_NONE margin_set_ZERO margin_set_ZERO false.
